@@ -5,7 +5,7 @@
    the source does now - Gen/GenFreeze.v) key equality is identity of the frozen value; without
    it, 2 and 2.0 collide (the defect of the pinned tree). *)
 From Coq Require Import String List ZArith Bool Arith.
-From EinxV Require Import Model.PyVal Gen.GenFreeze Proofs.PyValProofs.
+From EinxV Require Import Model.PyVal Gen.GenFreeze Proofs.PyValProofs Gen.GenTracerKey Model.TracerKey Proofs.TracerKeyProofs.
 Import ListNotations.
 
 (* equal keys are identical frozen values: a cache hit was compiled for exactly these arguments *)
@@ -45,3 +45,31 @@ Proof.
          (FDict [("c"%string, FNum {| nt := TFloat; integral := true; code := 2 |})]).
   split; [reflexivity|discriminate].
 Qed.
+
+(* ---- tensor arguments: the key holds the placeholder that _to_tracer builds (Gen/GenTracerKey.v: its rows, and the attributes
+   that __eq__ of Tensor / ConvertibleTensor compares, are read off the source on every run).  Tracing and compilation see
+   the placeholders only, so a hit is a faithful stand-in for a fresh compilation iff equal placeholders are identical. ---- *)
+Theorem C06_placeholders_of_tensor_arguments_separate : forall a b pa pb,
+  to_ph a = Some pa -> to_ph b = Some pb -> ph_eqb pa pb = true -> pa = pb.
+Proof. exact placeholders_of_arguments_separate. Qed.
+
+(* every kind of argument has its row, and the row of a callable carries its signature *)
+Definition some_arg (k : akind) : arg := Build_arg k [2; 3]%Z 1 ["shape"%string].
+Example C06_every_argument_kind_has_a_placeholder : forall k, exists p, to_ph (some_arg k) = Some p.
+Proof. intros []; eexists; vm_compute; reflexivity. Qed.
+Example C06_factory_placeholder_holds_the_signature :
+  option_map p_concrete (to_ph (fac ["shape"; "name"]%string))
+  = Some [("type"%string, CType 7); ("parameters"%string, CParams ["shape"; "name"]%string)].
+Proof. reflexivity. Qed.
+
+(* the whole key - frozen option values and placeholders, position by position - and the cache over such keys: for EVERY history
+   of calls each call gets what tracing its own key afresh gives *)
+Theorem C06_every_history_with_tensor_arguments_is_transparent :
+  forall (O : Type) (trace : list item -> O) (history : list (list item)),
+  Forall (Forall wf_item) history -> krun O trace ckey_eqb [] history = map trace history.
+Proof. intros O trace h Hh. apply kcache_transparent_for_every_history; [intros k o []|exact Hh]. Qed.
+
+(* a placeholder comparison that ignores `concrete` (the signature of a factory) does not separate *)
+Theorem C06_comparison_without_concrete_refuted : exists a b pa pb, to_ph a = Some pa /\ to_ph b = Some pb /\
+  ph_eqb_with ["origin"; "shape"]%string ["origin"; "shape"]%string pa pb = true /\ pa <> pb.
+Proof. exact without_concrete_refuted. Qed.
